@@ -486,7 +486,18 @@ fn run_grid(udf: &ScalarUDF, plan: &Plan, vary: (usize, usize), opts: &Opts) -> 
             g.eval_chunk("sliced", Chunk { rows: good.clone(), args, must: true, variant_types: None, constants: vec![] }, n, false);
         }
         // ---- split in two
-        let mut cuts: Vec<usize> = if opts.all_splits { (1..n).collect() } else { vec![1, n / 2] };
+        // thorough: every cut for grids of up to 64 good rows; for larger grids (quadratic work on functions whose
+        // single invocation is already expensive) 1, n/2, n-1 and about 32 evenly spaced cuts
+        let mut cuts: Vec<usize> = if !opts.all_splits {
+            vec![1, n / 2]
+        } else if n <= 64 {
+            (1..n).collect()
+        } else {
+            let mut c: Vec<usize> = (1..n).step_by((n / 32).max(1)).collect();
+            c.extend([n / 2, n - 1]);
+            c.sort();
+            c
+        };
         if let Some(r) = &opts.rep {
             if let Some(k) = r.strip_prefix("split@").and_then(|k| k.parse::<usize>().ok()) {
                 cuts = vec![k];
@@ -918,7 +929,7 @@ fn explore(ctx: &Ctx) {
         json!({
             "registries": regs, "type_lists_per_function": cap, "probe_alphabet": menu::probe_alphabet().iter().map(|t| t.to_string()).collect::<Vec<_>>(),
             "menu": "NULL, empty/zero, ASCII/typical, multibyte/negative, >12 bytes, NaN/inf/MIN/MAX; <= 3 probe-selected pool strings per string argument",
-            "varied_arguments": "every pair (others fixed at default)", "splits": if ctx.thorough() { "every cut" } else { "cuts at 1 and n/2" },
+            "varied_arguments": "every pair (others fixed at default)", "splits": if ctx.thorough() { "every cut (grids of > 64 good rows: 1, n/2, n-1 and ~32 evenly spaced cuts)" } else { "cuts at 1 and n/2" },
             "representations": ["base", "const", "const3", "batch", "batch-full", "sliced", "split@k", "scalar:i", "scalar:fixed", "flavour:k:T", "flavour:all:F", "dict:k:dense", "dict:k:sparse", "dict:k:nullvalue"],
         }),
     );
